@@ -79,10 +79,30 @@ def expand_history(cs):
 
 
 def stack_order(infos):
-    """infos: list of (order, name) in the order the plugin hooks returned them.  The documented
-    rule: sorted by ORDER, ties keep their exposure order."""
+    """infos: list of (order, name[, function, mro]) in the order the plugin hooks returned them.
+    The documented rules: sorted by ORDER, ties keep their exposure order; two interfaces may not
+    share a function - the more derived class wins (a less derived newcomer is ignored, a more
+    derived newcomer replaces the one in the stack and goes to the end)."""
     idx = sorted(range(len(infos)), key=lambda i: (infos[i][0], i))
-    return [infos[i][1] for i in idx]
+    stack = []
+    for i in idx:
+        inf = infos[i]
+        name = inf[1]
+        fn = inf[2] if len(inf) > 2 else None
+        mro = inf[3] if len(inf) > 3 else [name]
+        clash = None
+        if fn is not None:
+            clash = next((k for k, e in enumerate(stack) if e[1] == fn), None)
+        if clash is not None:
+            omro = stack[clash][2]
+            if mro[0] in omro:  # the one in the stack is the same class or more derived
+                continue
+            if omro[0] in mro:  # the newcomer derives from it
+                stack.pop(clash)
+            else:
+                raise ValueError(f"two unrelated interfaces with function {fn}")
+        stack.append((name, fn, mro))
+    return [e[0] for e in stack]
 
 
 class Sched:
